@@ -444,6 +444,15 @@ class Interpreter(BaseInterpreter[TContext, TEvent]):
                 # 📬 Wait indefinitely for the next event from the queue.
                 event = await self._event_queue.get()
 
+                # 🚪 The status may have left "running" while this task was
+                #    parked in `get()` (a `stop()` from another task, a failed
+                #    service). Processing the event anyway ran user code on a
+                #    stopped machine - and an actor spawned by it was missed
+                #    by the `stop()` that had already swept the children.
+                if self.status != "running":
+                    self._event_queue.task_done()
+                    break
+
                 # 🗑️ An engine-raised event whose activation has ended.
                 if self._is_stale_event(event):
                     logger.debug(
